@@ -161,12 +161,35 @@ pub fn run_case(ctx: &mut Ctx, c: &Case) {
             ctx.eval(p.fingerprint() ^ model::prng::fnv(format!("{subset:?}{sink:?}").as_bytes()), p.files.len() >= 2);
             ctx.count(&format!("subset:{}", match subset { Subset::Empty => "empty", Subset::One(_) => "one", Subset::All => "all", Subset::Random(_) => "random" }));
             ctx.count(&format!("sink:{}", format!("{sink:?}").split('(').next().unwrap_or("?")));
+            ctx.count(["reader:fresh", "reader:after_get_hash", "reader:after_get_file", "reader:after_linear_extract"][((p.fingerprint() ^ model::prng::fnv(format!("{subset:?}").as_bytes())) % 4) as usize]);
             ctx.sample(|| json!({"extract": {"prog": p, "subset": subset, "sink": sink}}));
             let scen = || json!({"case": c, "k": k.name(), "facts": xlate::facts(p, &k)});
             let r = guarded(|| -> Result<(), (String, String)> {
                 let b = drv::build(p, &k, Sched::All).map_err(|e| ("build".to_string(), e))?;
                 let names = chosen(p, subset);
                 let mut ar = drv::open(Cursor::new(&b.raw[..]), &b.sks).map_err(|e| ("open".to_string(), e))?;
+                // the reader may have been used before (linear extraction starts over from the
+                // beginning of the data whatever was read last)
+                let all_names: Vec<String> = p.files.iter().map(|f| f.name.render()).collect();
+                let prior = (p.fingerprint() ^ model::prng::fnv(format!("{subset:?}").as_bytes())) % 4;
+                if let Some(first) = all_names.first() {
+                    match prior {
+                        1 => {
+                            let _ = ar.get_hash(all_names.last().unwrap()).map_err(|e| ("get_file".to_string(), e.to_string()))?;
+                        }
+                        2 => {
+                            if let Some(mut f) = ar.get_file(first.clone()).map_err(|e| ("get_file".to_string(), e.to_string()))? {
+                                let mut sinkhole = Vec::new();
+                                io::Read::read_to_end(&mut f.data, &mut sinkhole).map_err(|e| ("get_file-read".to_string(), e.to_string()))?;
+                            }
+                        }
+                        3 => {
+                            let mut ex0: HashMap<&String, Vec<u8>> = all_names.iter().map(|n| (n, Vec::new())).collect();
+                            mla::helpers::linear_extract(&mut ar, &mut ex0).map_err(|e| ("linear-extract-failed".to_string(), format!("first of two extractions: {e}")))?;
+                        }
+                        _ => {}
+                    }
+                }
                 let mut export: HashMap<&String, PartSink> = names.iter().map(|n| (n, PartSink { buf: Vec::new(), sched: sink.clone(), calls: 0 })).collect();
                 mla::helpers::linear_extract(&mut ar, &mut export).map_err(|e| ("linear-extract-failed".to_string(), e.to_string()))?;
                 // reference: per-file reads on a second reader
